@@ -29,11 +29,19 @@ structure Dir where
   dataLen : Nat
 deriving Repr, DecidableEq
 
-/-- a file content (Inode) with the number of records that name it -/
+/-- a UDF directory: one sector for its File Entry, and the File Identifier Descriptors of its entries (`info_len` bytes) -/
+structure UDir where
+  id : Nat
+  info : Nat
+deriving Repr, DecidableEq
+
+/-- a file content (Inode) with the number of records / UDF entries that name it, and how many of those are UDF entries
+(they share ONE File Entry sector, which exists as long as there is a UDF name) -/
 structure Ino where
   id : Nat
   len : Nat
   links : Nat
+  nudf : Nat
 deriving Repr, DecidableEq
 
 structure State where
@@ -43,6 +51,8 @@ structure State where
   pt0 : PathTable.PT        -- ISO9660 path tables
   pt1 : PathTable.PT        -- Joliet path tables (⟨0,0⟩ when there is no Joliet descriptor)
   inos : List Ino
+  udirs : List UDir         -- UDF directories ([] without UDF)
+  ufree : Nat               -- File Entry sectors of UDF entries that have no content object
   space : Nat               -- `pvd.space_size`, maintained by deltas
 deriving Repr, DecidableEq
 
@@ -51,14 +61,19 @@ def removeAt (l : List Nat) (i : Nat) : List Nat := l.take i ++ l.drop (i + 1)
 
 /-- what `_reshuffle_extents` needs in sectors for this state, from scratch -/
 def dirSectors (ds : List Dir) : Nat := (ds.map fun d => d.dataLen / BS).sum
-def inoSectors (is : List Ino) : Nat := (is.map fun i => sectorsOf i.len).sum
+def feOf (i : Ino) : Nat := if 0 < i.nudf then 1 else 0
+def inoSectors (is : List Ino) : Nat := (is.map fun i => sectorsOf i.len + feOf i).sum
+/-- `utils.ceiling_div(info_len, 2048)`: the sectors of a directory's File Identifier area -/
+def fidBlocks (info : Nat) : Nat := (info + 2047) / BS
+def udirSectors (us : List UDir) : Nat := (us.map fun u => 1 + fidBlocks u.info).sum
 def layoutEnd (s : State) : Nat :=
-  s.fixed + 2 * s.pt0.extents + 2 * s.pt1.extents + dirSectors s.dirs + s.ce + inoSectors s.inos
+  s.fixed + 2 * s.pt0.extents + 2 * s.pt1.extents + dirSectors s.dirs + s.ce + inoSectors s.inos + udirSectors s.udirs + s.ufree
 
 /-- the objects in the order `_reshuffle_extents` places them, as sector counts -/
 def layoutCounts (s : State) : List Nat :=
   [s.fixed, s.pt0.extents, s.pt0.extents, s.pt1.extents, s.pt1.extents] ++ s.dirs.map (fun d => d.dataLen / BS)
-    ++ List.replicate s.ce 1 ++ s.inos.map (fun i => sectorsOf i.len)
+    ++ List.replicate s.ce 1 ++ s.inos.map (fun i => sectorsOf i.len + feOf i) ++ s.udirs.map (fun u => 1 + fidBlocks u.info)
+    ++ List.replicate s.ufree 1
 
 /-- update the first directory with the given id; `none` when there is none or the update refuses -/
 def updDir (id : Nat) (f : Dir → Option (Dir × Nat)) : List Dir → Option (List Dir × Nat)
@@ -90,17 +105,45 @@ def dropDir (id : Nat) : List Dir → Option (List Dir × Nat)
     if d.id = id then some (ds, d.dataLen)
     else (dropDir id ds).map fun r => (d :: r.1, r.2)
 
+/-- update the first UDF directory with the given id -/
+def updUDir (id : Nat) (f : UDir → Option (UDir × Nat)) : List UDir → Option (List UDir × Nat)
+  | [] => none
+  | u :: us =>
+    if u.id = id then (f u).map fun r => (r.1 :: us, r.2)
+    else (updUDir id f us).map fun r => (u :: r.1, r.2)
+
+/-- `UDFFileEntry.add_file_ident_desc`: the File Identifier area grows by whole blocks as `info_len` grows -/
+def addFid (len : Nat) (u : UDir) : Option (UDir × Nat) :=
+  some ({ u with info := u.info + len }, (fidBlocks (u.info + len) - fidBlocks u.info) * BS)
+
+/-- `remove_file_ident_desc_by_name` -/
+def rmFid (len : Nat) (u : UDir) : Option (UDir × Nat) :=
+  if len ≤ u.info then some ({ u with info := u.info - len }, (fidBlocks u.info - fidBlocks (u.info - len)) * BS) else none
+
+/-- `rm_directory(udf_path=...)`: the File Entry and ONE block of File Identifiers (the directory is empty) -/
+def dropUDir (id : Nat) : List UDir → Option (List UDir × Nat)
+  | [] => none
+  | u :: us =>
+    if u.id = id then (if fidBlocks u.info = 1 then some (us, 2 * BS) else none)
+    else (dropUDir id us).map fun r => (u :: r.1, r.2)
+
 inductive AddPart where
   | insert (dir idx len : Nat)                          -- a record into a directory
   | mkdir (tree id ptlen : Nat) (lens : List Nat)       -- a new directory extent (dot, dotdot) and its path table record
   | ceBlock                                             -- a new continuation block
   | vd                                                  -- one more volume descriptor (duplicate_pvd)
+  | ufid (dir len : Nat)                                -- a File Identifier Descriptor into a UDF directory
+  | umkdir (id : Nat)                                   -- the File Entry of a new UDF directory
+  | ufe                                                 -- the File Entry of a UDF entry without content
 deriving Repr
 
 inductive RmPart where
   | remove (dir idx : Nat)
   | rmdir (tree id ptlen : Nat)
   | ceBlock
+  | ufid (dir len : Nat)
+  | urmdir (id : Nat)
+  | ufe
 deriving Repr
 
 def ptOf (s : State) (tree : Nat) : PathTable.PT := if tree = 0 then s.pt0 else s.pt1
@@ -117,6 +160,9 @@ def addPart (s : State) : AddPart → Option (State × Nat)
     else none
   | .ceBlock => some ({ s with ce := s.ce + 1 }, BS)
   | .vd => some ({ s with fixed := s.fixed + 1 }, BS)
+  | .ufid dir len => (updUDir dir (addFid len) s.udirs).map fun r => ({ s with udirs := r.1 }, r.2)
+  | .umkdir id => some ({ s with udirs := s.udirs ++ [{ id := id, info := 0 }] }, BS)
+  | .ufe => some ({ s with ufree := s.ufree + 1 }, BS)
 
 def rmPart (s : State) : RmPart → Option (State × Nat)
   | .remove dir idx => (updDir dir (removeRec idx) s.dirs).map fun r => ({ s with dirs := r.1 }, r.2)
@@ -129,6 +175,9 @@ def rmPart (s : State) : RmPart → Option (State × Nat)
       | _, _ => none
     else none
   | .ceBlock => if 0 < s.ce then some ({ s with ce := s.ce - 1 }, BS) else none
+  | .ufid dir len => (updUDir dir (rmFid len) s.udirs).map fun r => ({ s with udirs := r.1 }, r.2)
+  | .urmdir id => (dropUDir id s.udirs).map fun r => ({ s with udirs := r.1 }, r.2)
+  | .ufe => if 0 < s.ufree then some ({ s with ufree := s.ufree - 1 }, BS) else none
 
 def addParts : State → List AddPart → Option (State × Nat)
   | s, [] => some (s, 0)
@@ -144,27 +193,35 @@ def rmParts : State → List RmPart → Option (State × Nat)
     | none => none
     | some (s1, b) => (rmParts s1 ps).map fun r => (r.1, b + r.2)
 
-/-- `n` more records name content `id`; a content that is not known yet is created with `len` bytes (the only bytes
-that are not whole blocks) -/
-def linkIno (id len n : Nat) : List Ino → List Ino × Nat
-  | [] => ([{ id := id, len := len, links := n }], len)
-  | i :: is =>
-    if i.id = id then ({ i with links := i.links + n } :: is, 0)
-    else let r := linkIno id len n is; (i :: r.1, r.2)
+/-- bytes for the File Entry sector of a content when `nu` UDF names are added to one that has `nudf` -/
+def feAdd (nu nudf : Nat) : Nat := if nudf = 0 ∧ 0 < nu then BS else 0
+/-- … and when `nu` of its `nudf` UDF names go -/
+def feRel (nu nudf : Nat) : Nat := if 0 < nu ∧ nu = nudf then BS else 0
 
-/-- `n` records that name content `id` go; the content is released, and its bytes are given back, with the last one -/
-def unlinkIno (id n : Nat) : List Ino → Option (List Ino × Nat)
+/-- `n` more names (`nu` of them UDF entries) for content `id`; a content that is not known yet is created with `len` bytes
+(the only bytes that are not whole blocks); the first UDF name brings the content's File Entry sector -/
+def linkIno (id len n nu : Nat) : List Ino → List Ino × Nat
+  | [] => ([{ id := id, len := len, links := n, nudf := nu }], len + feAdd nu 0)
+  | i :: is =>
+    if i.id = id then ({ i with links := i.links + n, nudf := i.nudf + nu } :: is, feAdd nu i.nudf)
+    else ((i :: (linkIno id len n nu is).1), (linkIno id len n nu is).2)
+
+/-- `n` names (`nu` of them UDF entries) of content `id` go; the File Entry sector goes with the last UDF name, the content
+and its bytes with the last name -/
+def unlinkIno (id n nu : Nat) : List Ino → Option (List Ino × Nat)
   | [] => none
   | i :: is =>
     if i.id = id then
-      if n < i.links then some ({ i with links := i.links - n } :: is, 0)
-      else if n = i.links then some (is, i.len)
+      if nu ≤ i.nudf ∧ nu ≤ n then
+        if n < i.links then some ({ i with links := i.links - n, nudf := i.nudf - nu } :: is, feRel nu i.nudf)
+        else if n = i.links ∧ nu = i.nudf then some (is, i.len + feRel nu i.nudf)
+        else none
       else none
-    else (unlinkIno id n is).map fun r => (i :: r.1, r.2)
+    else (unlinkIno id n nu is).map fun r => (i :: r.1, r.2)
 
 inductive Op where
-  | add (parts : List AddPart) (ino : Option (Nat × Nat × Nat))     -- content id, length, number of new names
-  | rm (parts : List RmPart) (ino : Option (Nat × Nat))            -- content id, number of names removed
+  | add (parts : List AddPart) (ino : Option (Nat × Nat × Nat × Nat))   -- content id, length, new names, UDF names among them
+  | rm (parts : List RmPart) (ino : Option (Nat × Nat × Nat))          -- content id, names removed, UDF names among them
 deriving Repr
 
 /-- one public edit: the parts, then ONE `_finish_add` / `_finish_remove` with the summed bytes -/
@@ -175,9 +232,9 @@ def step (s : State) : Op → Option State
     | some (s1, b) =>
       match ino with
       | none => some { s1 with space := addSpace s1.space b }
-      | some (id, len, n) =>
-        if 0 < n then
-          let r := linkIno id len n s1.inos
+      | some (id, len, n, nu) =>
+        if 0 < n ∧ nu ≤ n then
+          let r := linkIno id len n nu s1.inos
           some { s1 with inos := r.1, space := addSpace s1.space (b + r.2) }
         else none
   | .rm parts ino =>
@@ -186,8 +243,8 @@ def step (s : State) : Op → Option State
     | some (s1, b) =>
       match ino with
       | none => some { s1 with space := removeSpace s1.space b }
-      | some (id, n) =>
-        match unlinkIno id n s1.inos with
+      | some (id, n, nu) =>
+        match unlinkIno id n nu s1.inos with
         | none => none
         | some (is, lb) => some { s1 with inos := is, space := removeSpace s1.space (b + lb) }
 
@@ -215,7 +272,7 @@ def Named (s : State) : Prop := ∀ i ∈ s.inos, 0 < i.links
 /-- `PyCdlib.new()` without extensions: system area, PVD, terminator, version descriptor; path tables; the root -/
 def init0 : State :=
   { fixed := 19, ce := 0, dirs := [{ id := 0, lens := [34, 34], dataLen := BS }],
-    pt0 := { size := 10, extents := 2 }, pt1 := { size := 0, extents := 0 }, inos := [], space := 24 }
+    pt0 := { size := 10, extents := 2 }, pt1 := { size := 0, extents := 0 }, inos := [], udirs := [], ufree := 0, space := 24 }
 
 /-- executable form of `Inv` (what the driver evaluates on a state the harness read off a parsed image);
 `Props/C04Iso.invB_iff` proves it equivalent to `Inv` -/
@@ -231,11 +288,13 @@ def invB (s : State) : Bool :=
 
 def encList (l : List Nat) : String := if l.isEmpty then "-" else ".".intercalate (l.map toString)
 def encDir (d : Dir) : String := s!"{d.id}:{d.dataLen}:{encList d.lens}"
-def encIno (i : Ino) : String := s!"{i.id}:{i.len}:{i.links}"
+def encIno (i : Ino) : String := s!"{i.id}:{i.len}:{i.links}:{i.nudf}"
+def encUDir (u : UDir) : String := s!"{u.id}:{u.info}"
 def encState (s : State) : String :=
   let ds := if s.dirs.isEmpty then "-" else ",".intercalate (s.dirs.map encDir)
   let is := if s.inos.isEmpty then "-" else ",".intercalate (s.inos.map encIno)
-  s!"{s.fixed};{s.ce};{s.space};{s.pt0.size},{s.pt0.extents};{s.pt1.size},{s.pt1.extents};{ds};{is}"
+  let us := if s.udirs.isEmpty then "-" else ",".intercalate (s.udirs.map encUDir)
+  s!"{s.fixed};{s.ce};{s.space};{s.pt0.size},{s.pt0.extents};{s.pt1.size},{s.pt1.extents};{ds};{is};{us};{s.ufree}"
 
 def decList (t : String) : Option (List Nat) := if t = "-" then some [] else (t.splitOn ".").mapM (·.toNat?)
 
@@ -254,14 +313,20 @@ def decDir (x : String) : Option Dir :=
 
 def decIno (x : String) : Option Ino :=
   match x.splitOn ":" with
-  | [i, l, n] => do pure { id := ← i.toNat?, len := ← l.toNat?, links := ← n.toNat? }
+  | [i, l, n, nu] => do pure { id := ← i.toNat?, len := ← l.toNat?, links := ← n.toNat?, nudf := ← nu.toNat? }
+  | _ => none
+
+def decUDir (x : String) : Option UDir :=
+  match x.splitOn ":" with
+  | [i, n] => do pure { id := ← i.toNat?, info := ← n.toNat? }
   | _ => none
 
 def decState (t : String) : Option State :=
   match t.splitOn ";" with
-  | [f, c, sp, p0, p1, ds, is] => do
+  | [f, c, sp, p0, p1, ds, is, us, uf] => do
     pure { fixed := ← f.toNat?, ce := ← c.toNat?, space := ← sp.toNat?, pt0 := ← decPt p0, pt1 := ← decPt p1,
-           dirs := ← decMany decDir "," ds, inos := ← decMany decIno "," is }
+           dirs := ← decMany decDir "," ds, inos := ← decMany decIno "," is, udirs := ← decMany decUDir "," us,
+           ufree := ← uf.toNat? }
   | _ => none
 
 def decAddPart (x : String) : Option AddPart :=
@@ -270,6 +335,9 @@ def decAddPart (x : String) : Option AddPart :=
   | ["m", tr, i, pl, ls] => do pure (AddPart.mkdir (← tr.toNat?) (← i.toNat?) (← pl.toNat?) (← decList ls))
   | ["c"] => some AddPart.ceBlock
   | ["v"] => some AddPart.vd
+  | ["f", d, l] => do pure (AddPart.ufid (← d.toNat?) (← l.toNat?))
+  | ["u", i] => do pure (AddPart.umkdir (← i.toNat?))
+  | ["e"] => some AddPart.ufe
   | _ => none
 
 def decRmPart (x : String) : Option RmPart :=
@@ -277,18 +345,21 @@ def decRmPart (x : String) : Option RmPart :=
   | ["x", d, i] => do pure (RmPart.remove (← d.toNat?) (← i.toNat?))
   | ["d", tr, i, pl] => do pure (RmPart.rmdir (← tr.toNat?) (← i.toNat?) (← pl.toNat?))
   | ["c"] => some RmPart.ceBlock
+  | ["f", d, l] => do pure (RmPart.ufid (← d.toNat?) (← l.toNat?))
+  | ["u", i] => do pure (RmPart.urmdir (← i.toNat?))
+  | ["e"] => some RmPart.ufe
   | _ => none
 
-def decAddIno (x : String) : Option (Option (Nat × Nat × Nat)) :=
+def decAddIno (x : String) : Option (Option (Nat × Nat × Nat × Nat)) :=
   if x = "-" then some none else
   match x.splitOn ":" with
-  | [i, l, n] => do pure (some (← i.toNat?, ← l.toNat?, ← n.toNat?))
+  | [i, l, n, nu] => do pure (some (← i.toNat?, ← l.toNat?, ← n.toNat?, ← nu.toNat?))
   | _ => none
 
-def decRmIno (x : String) : Option (Option (Nat × Nat)) :=
+def decRmIno (x : String) : Option (Option (Nat × Nat × Nat)) :=
   if x = "-" then some none else
   match x.splitOn ":" with
-  | [i, n] => do pure (some (← i.toNat?, ← n.toNat?))
+  | [i, n, nu] => do pure (some (← i.toNat?, ← n.toNat?, ← nu.toNat?))
   | _ => none
 
 def decOp (t : String) : Option Op :=
